@@ -1,58 +1,630 @@
 package main
 
+// C14: transaction modes and lifecycle are enforced.
+//
+// K2 correspondence: call sequences over {Begin, Commit, Rollback, Phase1Commit, Phase2Commit,
+// Close, Add, Find, Update, Remove, NewBtree, OpenBtree} x 3 modes x {store absent, store holding
+// one item} are executed on the real API (infs transaction, filesystem store directory, in-memory
+// L2 cache), exhaustively up to a length, plus longer random ones. Every sequence gets its own
+// fresh directory. The calls run in worker child processes; the stored data is read back by other
+// fresh child processes (the L1 cache is process-global). The result class of every call and the
+// final stored data go to cases_*.v where the Coq model (Lifecycle.v) must agree, and the
+// property itself is checked directly on what the implementation did.
+
 import (
 	"context"
+	"encoding/json"
 	"fmt"
 	"os"
+	"os/exec"
+	"path/filepath"
+	"runtime"
+	"strconv"
 	"strings"
+	"sync"
 	"time"
 
 	"verif/harness/hx"
 )
 
-func main() {
-	if len(os.Args) > 1 && os.Args[1] == "probe" {
-		probe(os.Args[2:])
-		return
-	}
-	hx.Main("c14", nil)
+func main() { hx.Main("c14", runC14) }
+
+type callSpec struct {
+	C int `json:"c"`           // call kind
+	K int `json:"k,omitempty"` // key (store operations)
+	V int `json:"v,omitempty"` // value (Add/Update)
 }
 
-// probe MODE INIT seq...   e.g. probe 2 0 Begin,NewBtree,Commit
-func probe(args []string) {
-	ctx := context.Background()
-	base, _ := os.MkdirTemp("/var/tmp", "c14probe")
-	defer os.RemoveAll(base)
-	var mode, init int
-	fmt.Sscan(args[0], &mode)
-	fmt.Sscan(args[1], &init)
-	for k, s := range args[2:] {
-		var seq []int
-		for _, w := range strings.Split(s, ",") {
-			for i, n := range callNames {
-				if n == w {
-					seq = append(seq, i)
+type seqSpec struct {
+	Mode  int        `json:"mode"`  // index into modes
+	Init  int        `json:"init"`  // 0: store absent, 1: store "s" holds {1:10}
+	Calls []callSpec `json:"calls"` //
+	Tag   string     `json:"tag,omitempty"`
+}
+
+func (s seqSpec) String() string {
+	var w []string
+	for _, c := range s.Calls {
+		switch c.C {
+		case cAdd, cUpdate:
+			w = append(w, fmt.Sprintf("%s(%d,%d)", callNames[c.C], c.K, c.V))
+		case cFind, cRemove:
+			w = append(w, fmt.Sprintf("%s(%d)", callNames[c.C], c.K))
+		default:
+			w = append(w, callNames[c.C])
+		}
+	}
+	return fmt.Sprintf("%s init=%d [%s]", modeNames[s.Mode], s.Init, strings.Join(w, ","))
+}
+
+type execOut struct {
+	Res   []int  `json:"res"`
+	Panic string `json:"panic,omitempty"`
+}
+
+func mkCall(kind, pos int) callSpec {
+	c := callSpec{C: kind}
+	switch kind {
+	case cAdd, cUpdate:
+		c.K, c.V = theKey, valueOfStep(pos)
+	case cFind, cRemove:
+		c.K = theKey
+	}
+	return c
+}
+
+// allSeqs appends every sequence prefix ++ w for w over the alphabet with |w| in [lo,hi], for the given modes and both initial disks.
+func allSeqs(plan []seqSpec, prefix []int, lo, hi int, ms []int, tag string) []seqSpec {
+	var rec func(cur []int)
+	rec = func(cur []int) {
+		n := len(cur) - len(prefix)
+		if n >= lo {
+			for _, m := range ms {
+				for init := 0; init < 2; init++ {
+					s := seqSpec{Mode: m, Init: init, Tag: tag}
+					for i, k := range cur {
+						s.Calls = append(s.Calls, mkCall(k, i))
+					}
+					plan = append(plan, s)
 				}
 			}
 		}
-		dir := fmt.Sprintf("%s/d%d", base, k)
-		os.MkdirAll(dir, 0o755)
-		if init == 1 {
+		if n == hi {
+			return
+		}
+		for k := 0; k < nCalls; k++ {
+			rec(append(append([]int(nil), cur...), k))
+		}
+	}
+	rec(append([]int(nil), prefix...))
+	return plan
+}
+
+func corpus() []seqSpec {
+	mk := func(mode, init int, tag string, ks ...int) seqSpec {
+		s := seqSpec{Mode: mode, Init: init, Tag: tag}
+		for i, k := range ks {
+			s.Calls = append(s.Calls, mkCall(k, i))
+		}
+		return s
+	}
+	var out []seqSpec
+	// known finding: a read-only / no-check transaction creates a store
+	out = append(out, mk(2, 0, "corpus", cBegin, cNewBtree, cCommit))
+	out = append(out, mk(0, 0, "corpus", cBegin, cNewBtree, cCommit))
+	out = append(out, mk(2, 0, "corpus", cBegin, cNewBtree))
+	out = append(out, mk(2, 0, "corpus", cBegin, cNewBtree, cP1, cP2, cRollback))
+	// ordinary life cycles
+	for m := 0; m < 3; m++ {
+		for init := 0; init < 2; init++ {
+			out = append(out, mk(m, init, "corpus", cBegin, cNewBtree, cAdd, cFind, cUpdate, cCommit, cRollback, cBegin, cCommit))
+			out = append(out, mk(m, init, "corpus", cBegin, cOpenBtree, cFind, cRemove, cFind, cAdd, cP1, cP2, cP2, cRollback))
+			out = append(out, mk(m, init, "corpus", cBegin, cNewBtree, cUpdate, cP1, cP1, cP2))
+			out = append(out, mk(m, init, "corpus", cBegin, cNewBtree, cRemove, cP1, cAdd, cP2, cFind))
+			out = append(out, mk(m, init, "corpus", cBegin, cNewBtree, cAdd, cP1, cRollback, cCommit, cBegin))
+			out = append(out, mk(m, init, "corpus", cBegin, cNewBtree, cClose, cAdd, cClose, cCommit, cClose))
+			out = append(out, mk(m, init, "corpus", cP2, cCommit, cRollback, cBegin, cBegin, cP2, cNewBtree, cAdd, cCommit))
+		}
+	}
+	return out
+}
+
+func randomSeq(r *hx.Rng) seqSpec {
+	s := seqSpec{Mode: r.Intn(3), Init: r.Intn(2), Tag: "random"}
+	if r.Chance(55) {
+		s.Mode = 1 // writers have the richest behaviour
+	}
+	n := 5 + r.Intn(6)
+	for i := 0; i < n; i++ {
+		var k int
+		switch {
+		case i == 0 && r.Chance(85):
+			k = cBegin
+		case i == 1 && r.Chance(75):
+			k = hx.Pick(r, []int{cNewBtree, cNewBtree, cOpenBtree})
+		case r.Chance(60):
+			k = hx.Pick(r, []int{cAdd, cFind, cUpdate, cRemove})
+		case r.Chance(20): // malformed stream: lifecycle calls out of order
+			k = hx.Pick(r, []int{cBegin, cP2, cRollback, cClose, cCommit})
+		default:
+			k = r.Intn(nCalls)
+		}
+		c := mkCall(k, i)
+		if c.K != 0 {
+			c.K = 1 + r.Intn(3)
+		}
+		s.Calls = append(s.Calls, c)
+	}
+	return s
+}
+
+var allModes = []int{0, 1, 2}
+var writerOnly = []int{1}
+var nonWriters = []int{0, 2}
+
+// sample appends n members of pool chosen by r
+func sample(plan, pool []seqSpec, n int, r *hx.Rng, tag string) []seqSpec {
+	for i := 0; i < n && len(pool) > 0; i++ {
+		s := pool[r.Intn(len(pool))]
+		s.Tag = tag
+		plan = append(plan, s)
+	}
+	return plan
+}
+
+func buildPlan(cfg *hx.RunCfg) []seqSpec {
+	plan := corpus()
+	r := hx.NewRng(cfg.Seed)
+	if cfg.Tier == "thorough" {
+		plan = allSeqs(plan, nil, 1, 4, allModes, "all<=4")
+		plan = allSeqs(plan, []int{cBegin, cNewBtree}, 3, 3, nonWriters, "nonwriter:Begin,NewBtree+3")
+		plan = allSeqs(plan, []int{cBegin, cOpenBtree}, 3, 3, nonWriters, "nonwriter:Begin,OpenBtree+3")
+		plan = allSeqs(plan, []int{cBegin, cNewBtree}, 3, 4, writerOnly, "writer:Begin,NewBtree+3..4")
+		plan = allSeqs(plan, []int{cBegin, cOpenBtree}, 3, 4, writerOnly, "writer:Begin,OpenBtree+3..4")
+		n := cfg.N
+		if n == 0 {
+			n = 20000
+		}
+		for i := 0; i < n; i++ {
+			plan = append(plan, randomSeq(r))
+		}
+		return plan
+	}
+	plan = allSeqs(plan, nil, 1, 2, allModes, "all<=2")
+	plan = allSeqs(plan, []int{cBegin}, 2, 2, allModes, "Begin+2")
+	plan = allSeqs(plan, []int{cBegin, cNewBtree}, 1, 2, allModes, "Begin,NewBtree+1..2")
+	plan = allSeqs(plan, []int{cBegin, cOpenBtree}, 1, 2, allModes, "Begin,OpenBtree+1..2")
+	plan = allSeqs(plan, []int{cBegin, cNewBtree}, 3, 3, writerOnly, "writer:Begin,NewBtree+3")
+	plan = allSeqs(plan, []int{cBegin, cOpenBtree}, 3, 3, writerOnly, "writer:Begin,OpenBtree+3")
+	// the rest of the small scope is sampled in the quick tier (all of it runs in the thorough tier)
+	n := cfg.N
+	if n == 0 {
+		n = 1000
+	}
+	pool := allSeqs(nil, []int{cBegin, cNewBtree}, 3, 3, nonWriters, "")
+	pool = allSeqs(pool, []int{cBegin, cOpenBtree}, 3, 3, nonWriters, "")
+	plan = sample(plan, pool, n/2, r, "sampled nonwriter:Begin,New/OpenBtree+3")
+	pool = allSeqs(nil, nil, 3, 4, allModes, "")
+	plan = sample(plan, pool, n/2, r, "sampled all 3..4")
+	for i := 0; i < n; i++ {
+		plan = append(plan, randomSeq(r))
+	}
+	return plan
+}
+
+// ---------------------------------------------------------------- children
+
+// shardOf spreads the plan over the workers independently of the position in the enumeration
+func shardOf(i, n int) int {
+	z := uint64(i)*0x9E3779B97F4A7C15 + 0x1234567
+	z = (z ^ (z >> 30)) * 0xBF58476D1CE4E5B9
+	z = (z ^ (z >> 27)) * 0x94D049BB133111EB
+	return int((z ^ (z >> 31)) % uint64(n))
+}
+
+func seqDir(base string, i int) string {
+	return filepath.Join(base, fmt.Sprintf("%03d", i/1000), strconv.Itoa(i))
+}
+
+func loadPlan(path string) ([]seqSpec, error) {
+	raw, err := os.ReadFile(path)
+	if err != nil {
+		return nil, err
+	}
+	var plan []seqSpec
+	return plan, json.Unmarshal(raw, &plan)
+}
+
+// child:exec PLAN BASE SHARD NSHARDS OUT — run every sequence i with i % NSHARDS == SHARD
+func childExec(args []string) int {
+	plan, err := loadPlan(args[0])
+	if err != nil {
+		fmt.Fprintln(os.Stderr, err)
+		return 2
+	}
+	base := args[1]
+	shard, _ := strconv.Atoi(args[2])
+	n, _ := strconv.Atoi(args[3])
+	ctx := context.Background()
+	out := map[int]execOut{}
+	for i, s := range plan {
+		if shardOf(i, n) != shard {
+			continue
+		}
+		dir := seqDir(base, i)
+		if err := os.MkdirAll(dir, 0o755); err != nil {
+			fmt.Fprintln(os.Stderr, err)
+			return 2
+		}
+		if s.Init == 1 {
 			if err := seedStore(ctx, dir); err != nil {
-				fmt.Println("seed:", err)
+				fmt.Fprintln(os.Stderr, "seed:", err)
+				return 2
 			}
+		}
+		seq := make([]int, len(s.Calls))
+		for j, c := range s.Calls {
+			seq[j] = c.C
 		}
 		t0 := time.Now()
-		out, pm := runSequence(ctx, dir, modes[mode], seq)
-		dt := time.Since(t0)
-		var rs []string
-		for _, r := range out {
-			if r < len(resNames) {
-				rs = append(rs, resNames[r])
-			} else {
-				rs = append(rs, fmt.Sprint(r))
+		res, pm := runSequenceSpec(ctx, dir, modes[s.Mode], s.Calls)
+		if dt := time.Since(t0); dt > 20*time.Millisecond && os.Getenv("VERIF_C14_SLOW") != "" {
+			fmt.Fprintln(os.Stderr, "slow", dt, s.String())
+		}
+		out[i] = execOut{Res: res, Panic: pm}
+	}
+	js, _ := json.Marshal(out)
+	if err := os.WriteFile(args[4], js, 0o644); err != nil {
+		fmt.Fprintln(os.Stderr, err)
+		return 2
+	}
+	return 0
+}
+
+// child:read PLAN BASE SHARD NSHARDS OUT — read the stored data of every directory of the shard
+func childRead(args []string) int {
+	plan, err := loadPlan(args[0])
+	if err != nil {
+		fmt.Fprintln(os.Stderr, err)
+		return 2
+	}
+	base := args[1]
+	shard, _ := strconv.Atoi(args[2])
+	n, _ := strconv.Atoi(args[3])
+	ctx := context.Background()
+	out := map[int]diskState{}
+	for i := range plan {
+		if shardOf(i, n) != shard {
+			continue
+		}
+		out[i] = readDisk(ctx, seqDir(base, i))
+	}
+	js, _ := json.Marshal(out)
+	if err := os.WriteFile(args[4], js, 0o644); err != nil {
+		fmt.Fprintln(os.Stderr, err)
+		return 2
+	}
+	return 0
+}
+
+func init() {
+	hx.Children["exec"] = childExec
+	hx.Children["read"] = childRead
+}
+
+func spawnAll(kind, planFile, base, outPrefix string, n int) error {
+	var wg sync.WaitGroup
+	errs := make([]error, n)
+	for k := 0; k < n; k++ {
+		wg.Add(1)
+		go func(k int) {
+			defer wg.Done()
+			cmd := exec.Command(os.Args[0], "child:"+kind, planFile, base, strconv.Itoa(k), strconv.Itoa(n), fmt.Sprintf("%s_%d.json", outPrefix, k))
+			cmd.Env = append(os.Environ(), "SOP_LOG_LEVEL=error")
+			ob, err := cmd.CombinedOutput()
+			if os.Getenv("VERIF_C14_SLOW") != "" {
+				for _, l := range strings.Split(string(ob), "\n") {
+					if strings.HasPrefix(l, "slow") {
+						fmt.Fprintln(os.Stderr, l)
+					}
+				}
+			}
+			if err != nil {
+				tail := string(ob)
+				if len(tail) > 1500 {
+					tail = tail[len(tail)-1500:]
+				}
+				errs[k] = fmt.Errorf("child %s shard %d: %v: %s", kind, k, err, tail)
+			}
+		}(k)
+	}
+	wg.Wait()
+	for _, e := range errs {
+		if e != nil {
+			return e
+		}
+	}
+	return nil
+}
+
+// ---------------------------------------------------------------- Coq printing
+
+func coqCall(c callSpec) string {
+	switch c.C {
+	case cCommit:
+		return "CCommit false false"
+	case cP1:
+		return "CP1 false"
+	case cP2:
+		return "CP2 false"
+	case cAdd:
+		return fmt.Sprintf("CAdd %d %d false", c.K, c.V)
+	case cUpdate:
+		return fmt.Sprintf("CUpdate %d %d false", c.K, c.V)
+	case cFind:
+		return fmt.Sprintf("CFind %d false", c.K)
+	case cRemove:
+		return fmt.Sprintf("CRemove %d false", c.K)
+	}
+	return coqCallNames[c.C]
+}
+
+func coqDisk(d diskState) string {
+	if !d.Exists {
+		return "None"
+	}
+	var it []string
+	for _, x := range d.Items {
+		it = append(it, fmt.Sprintf("(%d,%d)", x[0], x[1]))
+	}
+	return "(Some (" + hx.CoqZ(d.Count) + ", " + hx.CoqList(it) + "))"
+}
+
+func initDisk(init int) diskState {
+	if init == 1 {
+		return diskState{Exists: true, Count: 1, Items: [][2]int{{theKey, 10}}}
+	}
+	return diskState{}
+}
+
+// ---------------------------------------------------------------- oracle
+
+// checkProperty evaluates C14 directly on what the implementation did.
+func checkProperty(res *hx.Result, s seqSpec, out execOut, d diskState) {
+	if out.Panic != "" {
+		res.Fail("panic", s.String()+": "+out.Panic, s)
+		return
+	}
+	if d.Err != "" {
+		res.Fail("stored-data-unreadable", s.String()+": stored data cannot be read back afterwards: "+d.Err, s)
+	}
+	begun, ended, committed := false, false, false
+	createdByNew := false
+	for i, c := range s.Calls {
+		if i >= len(out.Res) {
+			break
+		}
+		r := out.Res[i]
+		isOp := c.C >= cAdd
+		if isOp && (r == rOk || r == rFalse) {
+			if !begun {
+				res.Fail("op-before-begin", fmt.Sprintf("%s: call %d (%s) succeeded although no Begin had succeeded", s, i, callNames[c.C]), s)
+			} else if ended {
+				res.Fail("op-after-end", fmt.Sprintf("%s: call %d (%s) succeeded after the transaction had ended", s, i, callNames[c.C]), s)
 			}
 		}
-		fmt.Printf("%s init=%d %s -> %s disk=%s %s (%v)\n", modeNames[mode], init, s, strings.Join(rs, ","), readDisk(ctx, dir), pm, dt)
+		switch c.C {
+		case cBegin:
+			if r == rOk {
+				if ended {
+					res.Fail("begin-after-end", fmt.Sprintf("%s: call %d Begin succeeded on a finished transaction", s, i), s)
+				} else if begun {
+					res.Fail("begin-twice", fmt.Sprintf("%s: call %d Begin succeeded on a begun transaction", s, i), s)
+				}
+				begun = true
+			}
+		case cCommit, cP2:
+			if r == rOk {
+				if !begun {
+					res.Fail("commit-before-begin", fmt.Sprintf("%s: call %d %s succeeded although no Begin had succeeded", s, i, callNames[c.C]), s)
+				}
+				if ended && !committed {
+					res.Fail("commit-after-rollback", fmt.Sprintf("%s: call %d %s succeeded on a rolled back transaction", s, i, callNames[c.C]), s)
+				}
+				ended, committed = true, true
+			}
+		case cRollback:
+			if r == rOk {
+				if committed {
+					res.Fail("rollback-after-commit", fmt.Sprintf("%s: call %d Rollback succeeded on a committed transaction", s, i), s)
+				}
+				if begun {
+					ended = true
+				}
+			}
+		case cNewBtree:
+			if r == rOk && s.Init == 0 {
+				createdByNew = true
+			}
+		}
 	}
+	d0 := initDisk(s.Init)
+	if d.Err != "" {
+		return
+	}
+	// known defect class: a writer whose Phase1Commit succeeded goes on working (store operation,
+	// Phase1Commit or Commit again) before the transaction ends
+	workAfterP1 := false
+	if s.Mode == 1 {
+		p1 := false
+		for i, c := range s.Calls {
+			if i >= len(out.Res) {
+				break
+			}
+			r := out.Res[i]
+			if p1 && ((c.C == cAdd || c.C == cUpdate || c.C == cRemove) && r == rOk || c.C == cP1 || c.C == cCommit) {
+				workAfterP1 = true
+			}
+			if c.C == cP1 && r == rOk {
+				p1 = true
+			}
+		}
+	}
+	if d.Exists && d.Count != int64(len(d.Items)) {
+		if workAfterP1 {
+			res.Fail("work-after-phase1-corrupts-count", fmt.Sprintf("%s: afterwards the store records %d items but holds %d", s, d.Count, len(d.Items)), s)
+		} else {
+			res.Fail("count-differs-from-items", fmt.Sprintf("%s: afterwards the store records %d items but holds %d", s, d.Count, len(d.Items)), s)
+		}
+		return
+	}
+	if s.Mode != 1 && d.String() != d0.String() {
+		if createdByNew && s.Init == 0 && d.Exists && len(d.Items) == 0 {
+			res.Fail("readonly-creates-store", fmt.Sprintf("%s: a %s transaction left a new (empty) store on disk", s, modeNames[s.Mode]), s)
+		} else {
+			res.Fail("readonly-changed-data", fmt.Sprintf("%s: a %s transaction changed the stored data from %s to %s", s, modeNames[s.Mode], d0, d), s)
+		}
+	}
+	if s.Mode == 1 && !committed && d.String() != d0.String() {
+		// a writer that never committed: only a store it created (and did not roll back) may remain
+		if !(createdByNew && d.Exists && len(d.Items) == 0) {
+			if workAfterP1 {
+				res.Fail("work-after-phase1-corrupts-count", fmt.Sprintf("%s: no commit succeeded but the stored data changed from %s to %s", s, d0, d), s)
+			} else {
+				res.Fail("uncommitted-changed-data", fmt.Sprintf("%s: no commit succeeded but the stored data changed from %s to %s", s, d0, d), s)
+			}
+		}
+	}
+}
+
+// ---------------------------------------------------------------- driver
+
+func runC14(cfg *hx.RunCfg) (*hx.Result, error) {
+	res := hx.NewResult("C14")
+	res.Imports = []string{"Lib.Bytes", "Lifecycle", "Corr.C14"}
+	res.CaseType = "c14case"
+	res.Checker = "c14_check"
+	res.Rule = "call sequences over the 12-call alphabet x 3 modes x {store absent, store with one item}, each followed by a closing Rollback. Quick: exhaustively all of length <= 2, Begin+2, Begin,NewBtree|OpenBtree + all of length 1..2, and for writers Begin,NewBtree|OpenBtree + all of length 3; a seeded sample of the remaining length 3..5 scope; a fixed corpus; random sequences of length 5-10 over keys 1-3. Thorough: exhaustively all of length <= 4, Begin,NewBtree|OpenBtree + all of length 3 (every mode) and of length 4 (writers). distinct = distinct (mode, initial disk, call list); non-trivial = a Begin succeeded in the sequence"
+	var plan []seqSpec
+	if cfg.Replay != "" {
+		raw, err := os.ReadFile(cfg.Replay)
+		if err != nil {
+			return nil, err
+		}
+		var rp struct {
+			Input seqSpec `json:"input"`
+		}
+		if err := json.Unmarshal(raw, &rp); err != nil {
+			return nil, err
+		}
+		plan = []seqSpec{rp.Input}
+	} else {
+		plan = buildPlan(cfg)
+		// Every program ends by rolling back whatever it left open (the usual `defer t.Rollback(ctx)`):
+		// the stored data is compared at a point where no commit is in flight. What other
+		// transactions can see while a commit is between its phases is the subject of C02/C03.
+		for i := range plan {
+			plan[i].Calls = append(plan[i].Calls, callSpec{C: cRollback})
+		}
+	}
+	out := cfg.Out
+	if out == "" {
+		out = filepath.Join("/var/tmp/C14", fmt.Sprintf("run%d", os.Getpid()))
+	}
+	if err := os.MkdirAll(out, 0o755); err != nil {
+		return nil, err
+	}
+	base := filepath.Join(out, "fs")
+	if v := os.Getenv("VERIF_C14_FS"); v != "" {
+		base = filepath.Join(v, fmt.Sprintf("verif-c14-%d", os.Getpid()))
+	} else if st, err := os.Stat("/dev/shm"); err == nil && st.IsDir() {
+		// tens of thousands of short-lived store folders: keep them off the disk when a memory filesystem is there
+		base = filepath.Join("/dev/shm", fmt.Sprintf("verif-c14-%d", os.Getpid()))
+	}
+	os.RemoveAll(base)
+	defer os.RemoveAll(base)
+	planFile := filepath.Join(out, "plan.json")
+	js, _ := json.Marshal(plan)
+	if err := os.WriteFile(planFile, js, 0o644); err != nil {
+		return nil, err
+	}
+	defer os.Remove(planFile)
+	nw := runtime.NumCPU()
+	if nw > 12 {
+		nw = 12
+	}
+	if nw > len(plan) {
+		nw = len(plan)
+	}
+	if err := spawnAll("exec", planFile, base, filepath.Join(out, "exec"), nw); err != nil {
+		return nil, err
+	}
+	if err := spawnAll("read", planFile, base, filepath.Join(out, "disk"), nw); err != nil {
+		return nil, err
+	}
+	execs := map[int]execOut{}
+	disks := map[int]diskState{}
+	for k := 0; k < nw; k++ {
+		var e map[int]execOut
+		var d map[int]diskState
+		f1, f2 := fmt.Sprintf("%s_%d.json", filepath.Join(out, "exec"), k), fmt.Sprintf("%s_%d.json", filepath.Join(out, "disk"), k)
+		raw, err := os.ReadFile(f1)
+		if err != nil {
+			return nil, err
+		}
+		if err := json.Unmarshal(raw, &e); err != nil {
+			return nil, err
+		}
+		raw, err = os.ReadFile(f2)
+		if err != nil {
+			return nil, err
+		}
+		if err := json.Unmarshal(raw, &d); err != nil {
+			return nil, err
+		}
+		for i, v := range e {
+			execs[i] = v
+		}
+		for i, v := range d {
+			disks[i] = v
+		}
+		os.Remove(f1)
+		os.Remove(f2)
+	}
+	for i, s := range plan {
+		eo, d := execs[i], disks[i]
+		begun := false
+		for j, c := range s.Calls {
+			if c.C == cBegin && j < len(eo.Res) && eo.Res[j] == rOk {
+				begun = true
+			}
+		}
+		res.Seen(s.String(), begun)
+		res.Count("mode." + modeNames[s.Mode])
+		res.Count("len." + strconv.Itoa(len(s.Calls)))
+		res.Count("set." + s.Tag)
+		for j, c := range s.Calls {
+			if j < len(eo.Res) && eo.Res[j] < len(resNames) {
+				res.Count("call." + callNames[c.C] + "." + resNames[eo.Res[j]])
+			}
+		}
+		res.Count("final." + map[bool]string{true: "store-present", false: "store-absent"}[d.Exists])
+		checkProperty(res, s, eo, d)
+		var cs, rs []string
+		for _, c := range s.Calls {
+			cs = append(cs, coqCall(c))
+		}
+		for _, r := range eo.Res {
+			if r < len(coqResNames) {
+				rs = append(rs, coqResNames[r])
+			}
+		}
+		if eo.Panic == "" && d.Err == "" {
+			res.AddCase(fmt.Sprintf("SeqCase %s %s %s %s %s", coqModeNames[s.Mode], coqDisk(initDisk(s.Init)), hx.CoqList(cs), hx.CoqList(rs), coqDisk(d)), s)
+		}
+		if i%997 == 0 {
+			res.Sample(map[string]any{"sequence": s.String(), "results": eo.Res, "stored_data_after": d.String()})
+		}
+	}
+	return res, nil
 }
